@@ -546,8 +546,8 @@ int32_t jls_wr_fsr_data(struct jls_core_fsr_s * self, int64_t sample_id, const v
             } else {
                 // the first block is shifted into buffer_u64; whatever follows it starts on a byte boundary
                 size_t sz = data_end_u8 - data_u8;
-                if (sz > (sizeof(self->buffer_u64) - 8)) {
-                    sz = sizeof(self->buffer_u64) - 8;
+                if (sz > (sizeof(self->buffer_u64) - 16)) {
+                    sz = sizeof(self->buffer_u64) - 16;  // keep word (sz / 8) + 1 inside the buffer
                 }
                 self->buffer_u64[sz / 8] = 0;
                 self->buffer_u64[(sz / 8) + 1] = 0;
